@@ -373,6 +373,7 @@ type interp struct {
 	widthDone bool
 	moved     bool
 	x, y      Num
+	rangeErr  *Error
 	hintsOpen bool // no mask and no moveto executed yet: stems may be declared
 	seenV     bool
 	seenStem  bool
@@ -516,6 +517,9 @@ func (it *interp) run() *Error {
 		if e != nil {
 			return e
 		}
+		if it.rangeErr != nil {
+			return it.rangeErr
+		}
 		if done {
 			return nil
 		}
@@ -539,10 +543,17 @@ func (it *interp) takeWidth(present bool) {
 	}
 }
 
+// noteUse is called for every value consumed as a coordinate, stem edge or
+// width.  Values derived implicitly by an operator (the negated sums of the
+// flex operators) can leave the 16.16 range; that is an overflow, which
+// TN5177 leaves undefined.
 func (it *interp) noteUse(ns ...Num) {
 	for _, n := range ns {
 		if n.E > 0 {
 			it.res.Inexact = true
+		}
+		if (n.V+n.E > 32767.99999 || n.V-n.E < -32768) && it.rangeErr == nil {
+			it.rangeErr = errf(KUnspecified, "derived operand %v outside the 16.16 range", n.V)
 		}
 	}
 }
